@@ -77,4 +77,9 @@ Annotate(toks) ==
   LET sig == SelectSeq([i \in 1..Len(toks) |-> i], LAMBDA i : ~IsWsOnly(toks[i]))
       ok(j) == Apply(toks[sig[j]], New).st = "ok"       \* the scratch builder is empty at every probe
   IN {sig[j] : j \in {x \in 1..Len(sig) : toks[sig[x]] = "o" /\ ~((x > 1 /\ ok(x - 1)) \/ (x < Len(sig) /\ ok(x + 1)))}}
+
+\* every literal of the match arms, plus inflected / compound forms: the word alphabet of the apply-level conformance
+Vocabulary == DOMAIN Units \cup DOMAIN Plain \cup {"zero", "o", "nought", "hundred", "hundredth", "thousand", "thousandth", "million", "millionth",
+               "billion", "billionth", "and", "point", "seconds", "firsts", "thirds", "fifths", "hundreds", "thousands", "millions", "twenties",
+               "twenty-five", "twenty-first", "thirty-second", "ninety-ninth", "one-hundred", "and-five", "twenty-", "-five", "fifty-fifty", "apple"}
 =============================================================================
